@@ -160,7 +160,11 @@ where
                     stat.incr_sent_bytes(len);
                     #[cfg(feature = "metrics")]
                     counter.inc_by(len as u64);
+                    #[cfg(redproxy_verif)]
+                    crate::vtrace::emit("xfer", serde_json::json!({"stat": Arc::as_ptr(&stat) as usize, "from": src.name, "n": len, "mode": "stream"}));
                 } else {
+                    #[cfg(redproxy_verif)]
+                    crate::vtrace::emit("eof", serde_json::json!({"stat": Arc::as_ptr(&stat) as usize, "from": src.name}));
                     break;
                 }
             }
@@ -172,7 +176,11 @@ where
                     stat.incr_sent_frames(1);
                     #[cfg(feature = "metrics")]
                     counter.inc_by(len as u64);
+                    #[cfg(redproxy_verif)]
+                    crate::vtrace::emit("xfer", serde_json::json!({"stat": Arc::as_ptr(&stat) as usize, "from": src.name, "n": len, "mode": "frames"}));
                 }else{
+                    #[cfg(redproxy_verif)]
+                    crate::vtrace::emit("eof", serde_json::json!({"stat": Arc::as_ptr(&stat) as usize, "from": src.name}));
                     break;
                 }
 
@@ -184,7 +192,11 @@ where
                     stat.incr_sent_bytes(len);
                     #[cfg(feature = "metrics")]
                     counter.inc_by(len as u64);
+                    #[cfg(redproxy_verif)]
+                    crate::vtrace::emit("xfer", serde_json::json!({"stat": Arc::as_ptr(&stat) as usize, "from": src.name, "n": len, "mode": "splice"}));
                 } else {
+                    #[cfg(redproxy_verif)]
+                    crate::vtrace::emit("eof", serde_json::json!({"stat": Arc::as_ptr(&stat) as usize, "from": src.name}));
                     break;
                 }
             }
@@ -205,6 +217,8 @@ where
             .await
             .with_context(|| format!("shutdown frame {})", dst.name))?;
     }
+    #[cfg(redproxy_verif)]
+    crate::vtrace::emit("half_done", serde_json::json!({"stat": Arc::as_ptr(&stat) as usize, "from": src.name}));
 
     Ok(())
 }
@@ -233,6 +247,16 @@ pub async fn copy_bidi(ctx: ContextRef, params: &IoParams) -> Result<(), Error> 
     let mut ssrc = SrcHalf::new("server");
     let mut cdst = DstHalf::new("client");
     let mut sdst = DstHalf::new("server");
+    #[cfg(redproxy_verif)]
+    crate::vtrace::emit(
+        "relay_begin",
+        serde_json::json!({"id": ctx.read().await.props().id, "idle_ms": idle_timeout.as_millis() as u64,
+                           "c_stat": Arc::as_ptr(&client_stat) as usize, "s_stat": Arc::as_ptr(&server_stat) as usize,
+                           "streams": streams.is_some(), "frames": frames.is_some(), "splice": params.use_splice,
+                           "buffer": params.buffer_size,
+                           "early_c2s": streams.as_ref().map(|s| s.0.buffer().len()).unwrap_or(0),
+                           "early_s2c": streams.as_ref().map(|s| s.1.buffer().len()).unwrap_or(0)}),
+    );
     if let Some((mut client, mut server)) = streams {
         // Drain any buffers that may haven't been consumed or flushed.
         drain_buffers(&mut client, &mut server)
